@@ -385,6 +385,10 @@ func (s *fsm13) finish(ctx context.Context, conn Conn) (State, error) {
 	if timer != nil {
 		defer timer.Stop()
 	}
+	if vtrace.Enabled {
+		vtrace.Emit(s.cfg, "ph.idle", "client", s.state.IsClient, "queue", len(s.postHandshake.queue),
+			"flights", len(s.postHandshake.flights))
+	}
 
 	select {
 	case received := <-conn.RecvHandshake():
